@@ -224,6 +224,13 @@ class Statement(object):
             max_size += self.code_pkg.size + 1
             min_size += self.code_pkg.size + 1
 
+        if self.operand.left.is_address_expression():
+            # label+n or label-n may lie up to n bytes nearer or further away than the label
+            expression = self.operand.left
+            constant = expression.left.int if expression.left.is_numeric() else expression.right.int
+            max_size += constant
+            min_size -= constant
+
         if positive_range:
             if min_size <= 127 and max_size <= 127:
                 self.code_pkg.size += 1
